@@ -114,6 +114,10 @@ func uStartWith(sc uScenario, validate bool) *uWorld {
 	// schemas (C09 covers it in depth), for every program in the typed ones
 	undo.UndoConfig.DataValidation = validate
 	w.addUndoLog()
+	// the undo log of another branch of the same global transaction, and one of the same
+	// branch number of another: neither is this rollback's business
+	w.d.logs = append(w.d.logs, uLog{xid: xid, branch: branchID + 100, context: w.d.logs[0].context, info: w.d.logs[0].info, present: true},
+		uLog{xid: xid + "-other", branch: branchID, context: w.d.logs[0].context, info: w.d.logs[0].info, present: true})
 	w.d.rows = cloneRows(sc.now)
 	return w
 }
@@ -168,6 +172,7 @@ func c01Rollback(sc uScenario, w *uWorld) {
 	vrt.Assert(err == nil && st == branch.BranchStatusPhasetwoRollbacked, "c01/clean-rollback-answers-rollbacked/"+sc.tag)
 	vrt.Assert(uSameTable(sc.s, w.d.rows, sc.initial), "c01/table-restored/"+sc.tag)
 	vrt.Assert(!w.d.undoLogPresent(w.xid, w.branch), "c01/undo-log-gone/"+sc.tag)
+	vrt.Assert(w.d.undoLogPresent(w.xid, w.branch+100) && w.d.undoLogPresent(w.xid+"-other", w.branch), "c01/other-undo-logs-untouched/"+sc.tag)
 	vrt.Assert(w.d.openTx == 0, "c01/effects-committed/"+sc.tag)
 }
 
